@@ -694,6 +694,21 @@ def h_itemgetter(ip, st, args, kw, node):
     return app('operator.itemgetter', *args)
 
 
+def h_chain_from_iterable(ip, st, args, kw, node):
+    """itertools.chain.from_iterable(seq_of_seqs): the items of the inner sequences in order"""
+    if len(args) == 1 and isinstance(args[0], Tup) and all(isinstance(x, Tup) for x in args[0].items):
+        return Tup([i for x in args[0].items for i in x.items], 'list')
+    return app('itertools.chain.from_iterable', *[a if isinstance(a, (Poly, Tup, Const)) else P(a) for a in args])
+
+
+def h_chain(ip, st, args, kw, node):
+    if args and all(isinstance(x, Tup) for x in args):
+        return Tup([i for x in args for i in x.items], 'list')
+    return app('itertools.chain', *[a if isinstance(a, (Poly, Tup, Const)) else P(a) for a in args])
+
+
+HANDLERS['itertools.chain.from_iterable'] = h_chain_from_iterable
+HANDLERS['itertools.chain'] = h_chain
 HANDLERS['operator.attrgetter'] = h_attrgetter
 HANDLERS['operator.itemgetter'] = h_itemgetter
 
